@@ -140,7 +140,8 @@ def replay_plan(ob):
     if 'writer-task-ends-only' in ob.label:
         return 'accesslog', [case], lambda o: bool(o.get('task_ended_before_channel_closed'))
     if ob.label.startswith('C16/access-log/'):
-        return 'accesslog', [case2, case], lambda o: o.get('all_records_logged_once') is False and not o.get('task_ended_before_channel_closed')
+        # only the run that ends with a rotation: the writer flushes nowhere else, so without it the file legitimately lags behind
+        return 'accesslog', [case2], lambda o: o.get('all_records_logged_once') is False and not o.get('task_ended_before_channel_closed')
     return 'accesslog', [case], lambda o: bool(o.get('panicked'))
 
 
